@@ -12,6 +12,7 @@ import (
 
 // Clause is one requires/ensures/invariant with an optional stable label.
 type Clause struct {
+	Implicit interface{}     // engine-generated clause (e.g. the range index phi)
 	Consts map[string]int64 // constants bound by "each k lo hi ::" expansion
 	Label string
 	Src   string
